@@ -428,6 +428,24 @@ def check_energy(ctx, case):
         ctx.violation('%s: vector call over all %d nodes differs from the table (worst %r)'
                       % (label, len(ws), float(np.nanmax(np.abs(bv - np.array(bs)))) if bv.shape == (len(ws),) else 'shape'),
                       field='energy-node-vector')
+    # the arrays handed back belong to the caller: edited in place (scaled for a plot, an incoherent term added), the
+    # same request afterwards still serves the table - also in tabulated (increasing-energy) order of the nodes
+    warr = np.array(ws)
+    first = n.scattering_by_wavelength(warr)
+    edited = 0
+    for a in first:
+        if isinstance(a, np.ndarray) and a.ndim >= 1 and a.flags.writeable:
+            a *= 1e-5
+            a += 3.0
+            edited += 1
+    bv2 = np.asarray(n.scattering_by_wavelength(warr)[0], dtype=complex)
+    ctx.evaluated(len(ws), 'energy-node-vector-after-edit')
+    ctx.count('returned_arrays_edited', edited)
+    if bv2.shape != (len(ws),) or not np.all(np.abs(bv2 - np.array(bs)) <= NODE_TOL):
+        ctx.violation('%s: vector call over all %d nodes, repeated after the caller edited the arrays of the previous answer '
+                      'in place, differs from the table (worst %r)'
+                      % (label, len(ws), float(np.nanmax(np.abs(bv2 - np.array(bs)))) if bv2.shape == (len(ws),) else 'shape'),
+                      field='energy-node-vector-after-edit')
     if True:   # both tiers: segment interior points and end clamps (cheap)
         ctx.distinct_case((case['table'], 'energy-between', Z, A))
         pts = m.wavelength_table(Z, A)
